@@ -1,6 +1,7 @@
 import Chewing.Proofs.Loader
 import Chewing.Proofs.UhashRoundtrip
 import Chewing.Proofs.UhashBin
+import Chewing.Proofs.SqliteV1
 /-!
 # C19 — Legacy user data is migrated completely, exactly once, and never destroyed
 
@@ -18,6 +19,9 @@ closing it stores this map in `chewing.dat` and re-opening yields it back is C10
 * "the legacy store still holds all its records": `legacy_untouched`.
 * "creating the context again neither duplicates nor alters entries": `second_start_same`.
 * "phrases learned afterwards are kept alongside the migrated ones": `learn_then_restart_keeps_both`.
+* the older SQLite schema (`userphrase_v1`, written by the C library): `sqlite_v1_row_complete`,
+  `sqlite_v1_rows_complete`, `sqlite_v1_first_start` over the relational model `Model/SqliteV1.lean`
+  (its column lists, loop range and types come from the source through `Gen/SqliteV1.lean`).
 * F26 (repaired by a `fix:` commit): `lifetime_any`, with the pre-fix behaviour as `lifetime_orig_rejects`.
 -/
 namespace Chewing.C19
@@ -188,8 +192,10 @@ theorem lifetime_fixed_accepts :
 `TextReaderComplete`: the text encoding of any store of valid records reads back exactly its
 records.  The text reader model is validated by correspondence on generated stores and the oracle
 compares against the generator's own record list; the decimal print/parse round trip is not proved.
-`SqliteMigrates`: the SQLite stores (v2 schema, and v1 → v2 inside the file) are abstract in the
-model (`sqlite := some (some rows)` = the rows `SqliteDictionary::entries()` yields). -/
+`SqliteMigrates`: the current-schema SQLite store is abstract in the model (`sqlite := some (some rows)`
+= the rows `SqliteDictionary::entries()` yields); the v1 → v2 migration inside the file has the
+relational model of `Model/SqliteV1.lean` (section below), SQLite itself (storage, the SQL engine,
+the iteration order of the view) is trusted. -/
 
 /-- the importer treats SQLite rows like hash-file records (model level only) -/
 theorem sqlite_rows_imported (d : UserDir) (rows : List Uhash.Rec) (hd : d.chewingDat = none)
@@ -197,6 +203,108 @@ theorem sqlite_rows_imported (d : UserDir) (rows : List Uhash.Rec) (hd : d.chewi
     load true d = .ok { dict := .ok (importRecs [] rows), dir := { d with chewingDat := some (.valid (importRecs [] rows)) } } := by
   unfold load
   simp [hd, hs]
+
+/-! ## The older SQLite schema: `userphrase_v1` → joined v2 view (inside the file)
+
+`Model/SqliteV1.lean`: a legacy row = the 16 INTEGER columns + the phrase; the migration reads the
+columns its SELECT names (from the source, `Gen/SqliteV1.lean`) at the Rust types it declares, keeps
+the non-zero phones, writes `dictionary_v1 ⋈ userphrase_v2`; `entries()` answers
+`max(freq, coalesce(user_freq, 0))` and `time` per key. -/
+section SqliteV1
+open Chewing.SqliteV1
+
+/-- the view `entries()` reads is the one the model joins (`rfl` on the extracted text) -/
+theorem sqlite_view_shape :
+    Gen.v2ViewCols = "syllables, phrase, max(freq, coalesce(user_freq, 0)), time" ∧
+    Gen.v2ViewFrom = "dictionary_v1 LEFT JOIN userphrase_v2 ON userphrase_id = id" := ⟨rfl, rfl⟩
+
+/-- `sqlite_v1_row_complete`: every legacy row with k ≤ 11 non-zero phones (zero-padded, as the C
+    library wrote it) is read as exactly its k syllables, its phrase, `orig_freq`, `user_freq`, `time` -/
+theorem sqlite_v1_row_complete (g : V1Rec) (h : g.WF) : readRow g.row = .ok g.item := readRow_wf g h
+
+/-- in particular the eleventh syllable of a record of maximal length is read -/
+theorem sqlite_v1_row_syllables (g : V1Rec) (h : g.WF) :
+    ∃ it, readRow g.row = .ok it ∧ it.syls = g.syls ∧ it.syls.length = g.syls.length :=
+  ⟨g.item, readRow_wf g h, rfl, rfl⟩
+
+/-- what the new dictionary must hold for a legacy record: the frequency the joined view answers -/
+def v1Val (g : V1Rec) : Val := (max g.orig g.user, g.time)
+def v1Key (g : V1Rec) : Key := (g.syls, g.phrase)
+
+/-- the C library never lets the user frequency fall below the original one: the migrated frequency
+    IS the user frequency -/
+theorem sqlite_v1_user_freq (g : V1Rec) (h : g.orig ≤ g.user) : v1Val g = (g.user, g.time) := by
+  simp [v1Val, Nat.max_eq_right h]
+
+/-- `sqlite_v1_rows_complete`: a store of well-formed legacy records with pairwise distinct keys
+    migrates (the open succeeds) to a view that holds EVERY record under its full key with its
+    frequency and time, and nothing else -/
+theorem sqlite_v1_rows_complete (gs : List V1Rec) (hw : ∀ g ∈ gs, g.WF)
+    (hd : gs.Pairwise (fun a b => v1Key a ≠ v1Key b)) :
+    ∃ m, migrate (gs.map V1Rec.row) = .ok m ∧
+      (∀ g ∈ gs, find? m (v1Key g) = some (v1Val g)) ∧
+      (∀ e ∈ m, ∃ g ∈ gs, e = (v1Key g, v1Val g)) := by
+  refine ⟨importRecs [] ((gs.map V1Rec.item).map Item.toRec), ?_, ?_, ?_⟩
+  · unfold migrate
+    rw [readAll_wf gs hw]
+  · intro g hg
+    have hp : ((gs.map V1Rec.item).map Item.toRec).Pairwise (fun a b => keyOf a ≠ keyOf b) := by
+      rw [List.map_map, List.pairwise_map]
+      exact hd
+    exact migrate_complete hp (g.item.toRec) (List.mem_map.mpr ⟨g.item, List.mem_map.mpr ⟨g, hg, rfl⟩, rfl⟩)
+  · intro e he
+    obtain ⟨r, hr, rfl⟩ := migrate_exact _ e he
+    obtain ⟨it, hit, rfl⟩ := List.mem_map.mp hr
+    obtain ⟨g, hg, rfl⟩ := List.mem_map.mp hit
+    exact ⟨g, hg, rfl⟩
+
+/-- without distinctness: the LAST row of a key wins (`INSERT OR REPLACE`) -/
+theorem sqlite_v1_last_wins (gs : List V1Rec) (hw : ∀ g ∈ gs, g.WF) (k : Key) :
+    ∃ m, migrate (gs.map V1Rec.row) = .ok m ∧
+      find? m k = lastVal k ((gs.map V1Rec.item).map Item.toRec) none := by
+  refine ⟨_, ?_, migrate_last_wins _ k⟩
+  unfold migrate
+  rw [readAll_wf gs hw]
+
+/-- the whole first start over a directory that holds only a legacy v1 store: whatever order the view is
+    iterated in (`es` = any list that represents the migrated map), the new dictionary is stored, the legacy
+    file is not touched by the loader, and every legacy record is found with its frequency and time -/
+theorem sqlite_v1_first_start (gs : List V1Rec) (hw : ∀ g ∈ gs, g.WF)
+    (hd : gs.Pairwise (fun a b => v1Key a ≠ v1Key b)) (es : List Uhash.Rec) (u : Option (List Nat)) :
+    ∃ m, migrate (gs.map V1Rec.row) = .ok m ∧
+      ((∀ k, lastVal k es none = find? m k) →
+        ∃ l, load true { chewingDat := none, uhashDat := u, sqlite := some (some es) } = .ok l ∧
+          l.dir.sqlite = some (some es) ∧ l.dir.uhashDat = u ∧
+          ∃ m', l.dict = .ok m' ∧ l.dir.chewingDat = some (.valid m') ∧
+            ∀ g ∈ gs, find? m' (v1Key g) = some (v1Val g)) := by
+  obtain ⟨m, hm, hc, _⟩ := sqlite_v1_rows_complete gs hw hd
+  refine ⟨m, hm, fun hrep => ⟨_, sqlite_rows_imported _ es rfl rfl, rfl, rfl, _, rfl, rfl, ?_⟩⟩
+  intro g hg
+  rw [migrate_last_wins, hrep, hc g hg]
+
+/-- a number the declared Rust type cannot hold (here a negative `user_freq`) fails the whole open:
+    nothing is migrated from such a store (it is not a valid legacy store) -/
+theorem sqlite_v1_unreadable_rejected :
+    migrate [mkRow 7 1 1 1 1 [10268] [0xE5, 0x86, 0x8A],
+             { ints := [3, -1, 9, 9, 2, 10268, 8708, 0, 0, 0, 0, 0, 0, 0, 0, 0], phrase := [0xE6, 0xB8, 0xAC, 0xE8, 0xA9, 0xA6] }]
+      = .error () := by decide
+
+/-- a zero phone before the end is skipped, not a terminator (the code filters, it does not stop) -/
+theorem sqlite_v1_hole_skipped :
+    (readRow { ints := [3, 9, 9, 9, 2, 10268, 0, 8708, 0, 0, 0, 0, 0, 0, 0, 0], phrase := [0xE6, 0xB8, 0xAC, 0xE8, 0xA9, 0xA6] }).map (·.syls)
+      = .ok [10268, 8708] := by decide
+
+/-- non-vacuity: an 11-syllable record is well-formed, and its row has all eleven phone columns set -/
+def v1Eleven : V1Rec :=
+  { syls := [10268, 8708, 10268, 8708, 10268, 8708, 10268, 8708, 10268, 8708, 10268], phrase := [0xE5, 0x86, 0x8A],
+    orig := 1, user := 5, maxf := 5, len := 11, time := 99 }
+
+example : v1Eleven.WF := ⟨by decide, by decide, by decide, by decide, by decide, by decide⟩
+example : (readRow v1Eleven.row).map (·.syls.length) = .ok 11 := by
+  rw [sqlite_v1_row_complete v1Eleven ⟨by decide, by decide, by decide, by decide, by decide, by decide⟩]; rfl
+example : [v1Eleven].Pairwise (fun a b => v1Key a ≠ v1Key b) := by simp
+
+end SqliteV1
 
 /-! ## Non-vacuity -/
 
